@@ -35,6 +35,10 @@ const FAMS: &[Fam] = &[
     Fam { key: "bin:abx4", ty: "'bin", exprs: &["0xabababab", "[0xab, 4] __binary_repeat__", "[0xabab, 2] __binary_repeat__", "[0xabab, 0xabab] __binary_concat__", "[[0xab, 2] __binary_repeat__, 2] __binary_repeat__"], tuple: false, module_field: None },
     Fam { key: "bin:abx6", ty: "'bin", exprs: &["[0xab, 6] __binary_repeat__", "[0xababab, 2] __binary_repeat__", "[0xabab, 3] __binary_repeat__"], tuple: false, module_field: None },
     Fam { key: "bin:zero4", ty: "'bin", exprs: &["0x00000000", "4 __binary_new__", "[0x00, 4] __binary_repeat__", "[0x0000, 2] __binary_repeat__", "[2 __binary_new__, 2] __binary_repeat__"], tuple: false, module_field: None },
+    // long binaries (a comparison of these is worth caching, and a cache can go stale): equal bytes in
+    // distinct slots, and a near miss of the same length
+    Fam { key: "bin:ab70", ty: "'bin", exprs: &["[0xab, 70] __binary_repeat__", "[[0xab, 35] __binary_repeat__, [0xab, 35] __binary_repeat__] __binary_concat__", "[[0xab, 71] __binary_repeat__, 0, 70] __binary_slice__"], tuple: false, module_field: None },
+    Fam { key: "bin:ab69cd", ty: "'bin", exprs: &["[[0xab, 69] __binary_repeat__, 0xcd] __binary_concat__", "[[[0xab, 69] __binary_repeat__, 0xcdef] __binary_concat__, 0, 70] __binary_slice__"], tuple: false, module_field: None },
     Fam { key: "bin:empty", ty: "'bin", exprs: &["0x", "[0x01, 0, 0] __binary_slice__"], tuple: false, module_field: None },
     Fam { key: "P{x:1,y:0102}", ty: "P[x: 'int, y: 'bin]", exprs: &["P[x: 1, y: 0x0102]", "P[x: [0, 1] __integer_add__, y: [0x01, 0x02] __binary_concat__]", "P[x: 1 wd, y: 0x0102]", "P[x: 9, y: 0x0102] ~[..., x: 1]", "[x: 1] P[..., y: 0x0102]", "P[x: 1, y: 0x0102] idg", "[P[x: 1, y: [0x01, 0x02] __binary_concat__], 3] fst"], tuple: true, module_field: Some("p") },
     Fam { key: "P{x:2,y:0102}", ty: "P[x: 'int, y: 'bin]", exprs: &["P[x: 2, y: 0x0102]", "P[x: [1, 1] __integer_add__, y: 0x0102]", "P[x: 2 wd, y: 0x0102]"], tuple: true, module_field: None },
@@ -390,6 +394,24 @@ impl Property for C13 {
             nv_expected.push("1");
             cur.push("nvs = [nv0, nv1, nv2, nv3, nv4, nv5, nv6, nv7]".to_string());
         }
+        // long binaries compared, dropped and their slots reused: a 70-byte binary built inside a
+        // function is compared with the argument (equal) and dies on return; after a step boundary (an
+        // awaited child) a second function builds a DIFFERENT binary of the same length with one
+        // allocation - which lands in the reclaimed slot - and compares it with the same argument
+        let longbin = rng.chance(1, 4);
+        h.u64(longbin as u64);
+        if longbin {
+            lines[0].push("mkqa = #'bin { =z, w = [0xab, 70] __binary_repeat__, z { | =&w => 1 | 0 } }".to_string());
+            lines[0].push("mkqb = #'bin { =z, w = [0xcd, 70] __binary_repeat__, z { | =&w => 1 | 0 } }".to_string());
+            let cur = lines.last_mut().unwrap();
+            cur.push("bx = [[0xab, 35] __binary_repeat__, [0xab, 35] __binary_repeat__] __binary_concat__".to_string());
+            cur.push("bv1 = bx mkqa".to_string());
+            cur.push("bp = @{ 1 }".to_string());
+            cur.push("bq = !bp".to_string());
+            cur.push("bv2 = bx mkqb".to_string());
+            cur.push("bv3 = bx mkqa".to_string());
+            cur.push("bvs = [bv1, bv2, bv3]".to_string());
+        }
         let mut fin: Vec<String> = (0..npairs).map(|k| format!("e{k}")).collect();
         if nhp > 0 {
             fin.push("hvs".into());
@@ -398,6 +420,10 @@ impl Property for C13 {
         if nilres {
             fin.push("nvs".into());
             expected.push(format!("[{}]", nv_expected.join(", ")));
+        }
+        if longbin {
+            fin.push("bvs".into());
+            expected.push("[1, 0, 1]".to_string());
         }
         if uses_module {
             let cur = lines.last_mut().unwrap();
